@@ -30,6 +30,8 @@ EXPLANATION = (
     'that can reach dead-code elimination is computed through the MRO and intersected with the side-effect set. '
     'Decides these structural clauses, not denotation equality of arbitrary graphs.')
 LEVEL_NOTE = 'necessary conditions only; graph denotation for arbitrary programs is not decided'
+LEVEL_TEXT_ADD = ' Also: constants table discipline (C01.const; signed zero is a known finding) and idempotent per-input edge updates in dead-code elimination.'
+LEVEL_TEXT = (globals().get('LEVEL_TEXT') or EXPLANATION) + LEVEL_TEXT_ADD
 
 REFS = os.path.join(os.path.dirname(os.path.dirname(__file__)), 'refs')
 RATE_OF = {'ar': 'audio', 'kr': 'control', 'ir': 'scalar', 'dr': 'demand'}
